@@ -8,9 +8,9 @@ import refproto as rp
 import simnet
 from refserver import RefServer
 
-EXTRA_PROPS = ['C11Wire', 'C11Errors']
+EXTRA_PROPS = ['C11Wire', 'C11Errors', 'VersionProfiles']
 
-EXTRACT = ['versions', 'ids', 'gen.c11errors']
+EXTRACT = ['versions', 'ids', 'layouts', 'gen.c11errors', 'gen.versionprofiles']
 
 RULE = ("server packet histories (length 1..400, crossing the 50-read/300-write batch limits) "
         "interleaving keep-alives (ids at every VarInt/Long boundary), position-and-look, unknown-id "
@@ -188,10 +188,8 @@ def run(ctx):
                         pev.append('disc:%s' % '{"text":"bye"}'.encode().hex())
                     else:        # unknown ids and packets without a reaction: opaque frames
                         pev.append('unk:%d:%s' % (pid_, body_.hex() or '-'))
-                wlines.append('playwire.run ka=%d:%d:%s pos=%d:%d:%s:%s disc=%d thr=%s capw=300 capr=50 %s' % (
-                    I['ka_cb'], I['ka_sb'], 'L' if I['ka_wide'] else 'V', I['pl_cb'],
-                    I['tc_sb'] if newer else I['pl_sb'], 'T' if newer else 'E', 'D' if I['pl_fields'] >= 8 else '-',
-                    I['disc'], 64 if comp else 'none', ' '.join(pev)))
+                wlines.append('playwire.run %s thr=%s capw=300 capr=50 %s' % (
+                    play_profile_tokens(ctx, v, I, newer), 64 if comp else 'none', ' '.join(pev)))
                 srv_bytes = b''.join(rc.frame(rc.varint(pid_) + body_, 64 if comp else None)
                                      for kind_, pid_, body_ in [s_ for s_ in script if s_[0] == 'raw'])
                 p_ = 0
@@ -264,6 +262,160 @@ def run(ctx):
                          got_m[max(0, k - 40):k + 60], want[max(0, k - 40):k + 60])
     ctx.extra['play_wire_runs_compared'] = nw
     ctx.extra['play_wire_runs_skipped_deflate'] = nskip
+    errors_tie(ctx)
+    vprofile_play_tie(ctx)
+
+
+_VPROFILE = {}
+
+
+def play_profile_tokens(ctx, v, I, newer):
+    """the `ka=… pos=… disc=…` tokens of a `playwire.run` request.  Release versions: from the independent
+    tables (refproto); snapshot versions: the first three tokens of the model's own `vprofile.play <v>` reply
+    (Model/VersionProfiles.lean), so that the byte-level comparison of the real session also checks that profile."""
+    own = 'ka=%d:%d:%s pos=%d:%d:%s:%s disc=%d' % (
+        I['ka_cb'], I['ka_sb'], 'L' if I['ka_wide'] else 'V', I['pl_cb'],
+        I['tc_sb'] if newer else I['pl_sb'], 'T' if newer else 'E', 'D' if I['pl_fields'] >= 8 else '-', I['disc'])
+    if I.get('independent'):
+        return own
+    if v not in _VPROFILE:
+        _VPROFILE[v] = ctx.driver.ask(['vprofile.play %d' % v])[0]
+    toks = _VPROFILE[v].split()
+    if len(toks) < 4 or toks[0] != 'ok' or not (toks[1].startswith('ka=') and toks[2].startswith('pos=') and toks[3].startswith('disc=')):
+        ctx.disagree('vprofile.play gives no profile for a supported version', v, _VPROFILE[v], own)
+        return own
+    ctx.count('playwire.profile_from_vprofile')
+    return ' '.join(toks[1:4])
+
+
+def vprofile_play_tie(ctx):
+    """Tie of Model/VersionProfiles.lean (driver `vprofile.play`), exhaustive: every supported protocol version vs
+    the live get_id / get_definition of the play-state classes the reactor and the play loop depend on (keep alive
+    both ways and its id width, position-and-look and its answer, disconnect, set compression, every other
+    registered clientbound id in class-name order); every known-but-unsupported and some unknown numbers vs
+    Connection's refusal (ValueError -> `err:value`)."""
+    import minecraft
+    import minecraft.networking.connection as C
+    from minecraft.networking.packets import clientbound as cb, serverbound as sb
+    from minecraft.networking.types import Long, VarInt
+    sup = list(minecraft.SUPPORTED_PROTOCOL_VERSIONS)
+    reqs, want = [], []
+    for v in sup:
+        c = C.ConnectionContext(protocol_version=v)
+        ka_t = list(cb.play.KeepAlivePacket.get_definition(c)[0].values())[0]
+        ka_t_sb = list(sb.play.KeepAlivePacket.get_definition(c)[0].values())[0]
+        wide = ka_t is Long
+        if ka_t not in (Long, VarInt) or ka_t_sb is not ka_t or wide != bool(c.protocol_later_eq(339)):
+            ctx.disagree('keep-alive id type is not Long from 339 / VarInt before, both ways', v, None, [repr(ka_t), repr(ka_t_sb)])
+        pd = [f for f in cb.play.PlayerPositionAndLookPacket.get_definition(c) if f]
+        newer = bool(c.protocol_later_eq(107))
+        if (len(pd) >= 8) != bool(c.protocol_later_eq(755)) or (len(pd) >= 7) != newer:
+            ctx.disagree('position-and-look layout does not switch at 107 / 755', v, None, len(pd))
+        sb_classes = set(sb.play.get_packets(c))
+        tc_there = sb.play.TeleportConfirmPacket in sb_classes
+        if tc_there != newer:
+            ctx.disagree('TeleportConfirmPacket registered iff protocol >= 107', v, newer, tc_there)
+        ack = sb.play.TeleportConfirmPacket.get_id(c) if newer else sb.play.PositionAndLookPacket.get_id(c)
+        classes = sorted(cb.play.get_packets(c), key=lambda k: k.__name__)
+        others = [k.get_id(c) for k in classes if k.packet_name not in ('keep alive', 'player position and look', 'disconnect')]
+        sc = [k.get_id(c) for k in classes if k.packet_name == 'set compression']
+        reqs.append('vprofile.play %d' % v)
+        want.append('ok ka=%d:%d:%s pos=%d:%d:%s:%s disc=%d tc=%d echo=%d setcomp=%s others=%s' % (
+            cb.play.KeepAlivePacket.get_id(c), sb.play.KeepAlivePacket.get_id(c), 'L' if wide else 'V',
+            cb.play.PlayerPositionAndLookPacket.get_id(c), ack, 'T' if newer else 'E', 'D' if len(pd) >= 8 else '-',
+            cb.play.DisconnectPacket.get_id(c), sb.play.TeleportConfirmPacket.get_id(c) if newer else 0,
+            sb.play.PositionAndLookPacket.get_id(c), sc[0] if sc else '-', ','.join(map(str, others)) or '-'))
+    refused = [v for v in minecraft.KNOWN_PROTOCOL_VERSIONS if v not in set(sup)] + \
+        [ctx.rng.randrange(0, 2000) for _ in range(40)] + [max(minecraft.KNOWN_PROTOCOL_VERSIONS) + 1, 2 ** 31, 2 ** 40]
+    for v in refused:
+        if v in set(sup):
+            continue
+        try:
+            C.Connection('h', 1, username='u', allowed_versions={v})
+            got = 'accepted'
+        except ValueError:
+            got = 'err:value'
+        except Exception as e:
+            got = 'err:' + type(e).__name__
+        reqs.append('vprofile.play %d' % v)
+        want.append(got)
+    for line, mo, w in zip(reqs, ctx.driver.ask(reqs), want):
+        ctx.case(('vprofile.play', line))
+        ctx.count('vprofile.play.' + w.split()[0])
+        if mo != w:
+            ctx.disagree('vprofile.play vs the live play-state tables', line, mo[:500], w[:500])
+    ctx.extra['vprofile_play_pairs'] = ctx.extra.get('vprofile_play_pairs', 0) + len(reqs)
+
+
+def errors_tie(ctx):
+    """Tie of Model/C11Errors.lean (driver `playerr.run`): the real NetworkingThread.run on a play-state inbox
+    with failing `_write_packet` calls (harness/gen/c11errors.py `observe`, `driver_reply`): which replies reach
+    the wire / are lost / stay queued, deliveries, spawned, closed, exit and error callbacks.  Caps other than
+    300/50 run an in-memory copy of `_run` with other literals (gen.c11errors._run_with_caps)."""
+    import minecraft
+    from gen import c11errors as G
+    rng = ctx.rng
+    sup = sorted(minecraft.SUPPORTED_PROTOCOL_VERSIONS)
+    old = [v for v in sup if v < 107]
+    reqs, want, meta = [], [], []
+
+    def rnd_ev():
+        x = rng.random()
+        if x < 0.55:
+            return ('ka', rng.choice([0, 1, 7, 2 ** 31, rng.randrange(2 ** 40)]))
+        if x < 0.75:
+            return ('pl', rng.randrange(-300, 300), rng.randrange(-64, 320), rng.randrange(-300, 300),
+                    rng.randrange(-180, 180), rng.randrange(-90, 90), rng.randrange(32), rng.randrange(1000))
+        if x < 0.85:
+            return ('un', rng.choice([0x7e, 0x7f, 300]), [])
+        if x < 0.93:
+            return ('ot', 'chat message')
+        return ('disc',)
+
+    for i in range(ctx.scale(300, 4000)):
+        v = rng.choice(old) if (old and rng.random() < 0.4) else rng.choice(sup)
+        shape = rng.random()
+        if shape < 0.5:              # short sessions, often with small caps
+            evs = [rnd_ev() for _ in range(rng.randrange(0, 12))]
+            caps = rng.choice([None, None, (1, 1), (2, 3), (3, 2), (1, 50), (300, 1), (4, 4), (2, 5)])
+        else:                        # sessions long enough to hit the real caps (50 reads, then the write phase)
+            n = rng.choice([49, 50, 51, 99, 100, 101, rng.randrange(30, 160)])
+            evs = [('ka', k) if rng.random() < 0.85 else rnd_ev() for k in range(n)]
+            caps = None if rng.random() < 0.8 else rng.choice([(5, 7), (10, 10), (7, 5)])
+        if rng.random() < 0.5 and not any(e[0] == 'disc' for e in evs):
+            evs.insert(rng.randrange(len(evs) + 1) if rng.random() < 0.5 else len(evs), ('disc',))
+        nrep = sum(1 for e in evs if e[0] in ('ka', 'pl'))
+        f = rng.random()
+        if f < 0.25:
+            fail_tok, fail_from, fails = 'none', None, None
+        elif f < 0.6:
+            k = rng.choice([0, 1, 2, 3, rng.randrange(0, nrep + 2)])
+            fail_tok, fail_from, fails = 'from:%d' % k, k, None
+        else:
+            ks = sorted(set(rng.randrange(0, nrep + 2) for _ in range(rng.randrange(1, 4))))
+            fail_tok, fail_from, fails = 'at:' + ','.join(map(str, ks)), None, (lambda k, ks=frozenset(ks): k in ks)
+        newer, res = G.observe(v, fail_from, evs, fails=fails, caps=caps)
+        capw, capr = caps or (300, 50)
+        toks = []
+        for e in evs:
+            if e[0] == 'ka':
+                toks.append('ka:%d' % e[1])
+            elif e[0] == 'pl':
+                toks.append('pl:' + ':'.join(str(x) for x in e[1:]))
+            elif e[0] == 'un':
+                toks.append('un:%d:-' % e[1])
+            else:
+                toks.append(e[0])
+        reqs.append('playerr.run newer=%d capw=%d capr=%d fail=%s %s' % (newer, capw, capr, fail_tok, ' '.join(toks)))
+        want.append(G.driver_reply(res))
+        meta.append((v, len(evs)))
+    for line, mo, w, (v, n) in zip(reqs, ctx.driver.ask(reqs), want, meta):
+        ctx.case(('playerr.run', v, line), sample={'op': 'playerr.run', 'version': v, 'events': n, 'impl': w[:160]})
+        ctx.count('playerr.%s' % line.split()[4].split('=')[1].split(':')[0])
+        ctx.count('playerr.errors=%s' % w.rsplit('errors=', 1)[1])
+        if mo != w:
+            ctx.disagree('playerr.run vs the real networking thread (protocol %d)' % v, line[:1200], mo[:500], w[:500])
+    ctx.extra['c11errors_pairs'] = ctx.extra.get('c11errors_pairs', 0) + len(reqs)
 
 
 def replay(ctx, rp_):
